@@ -803,9 +803,10 @@ class Translator:
             if it['kind'] == 'raw':
                 txt = it['text']
                 if self.suffix:
-                    # instances etc. that mention translated names
-                    for n in sorted(self.item_names, key=len, reverse=True):
-                        txt = re.sub(r'(?<![\w.])' + re.escape(n) + r'(?![\w])', n + self.suffix, txt)
+                    # operator instances: the regenerated bodies use the PINNED instances (Kernel.lean is imported), so that an operator applied in
+                    # one function is the pinned callee - whose own equation `f_g = f` is a separate obligation - and a change of the callee
+                    # does not break the equations of all its callers.  Tier 2 declares instances the hand-written files lack: bound to the pinned names.
+                    txt = ('-- (instance of the pinned kernel used) ' + txt.replace('\n', ' ')) if getattr(self, 'raw_mode', 'skip') == 'skip' else txt
                 out.append(txt + "\n")
                 continue
             try:
@@ -818,7 +819,62 @@ class Translator:
                     out.append(f"-- TIE-DEGRADED {it['lean']}: {ex}\nabbrev {it['lean']}{self.suffix} {{K : Type}} [Scalar K] := @{it['lean']} K _\n")
                 else:
                     out.append(f"-- UNTRANSLATABLE {it['lean']}: {ex}\n")
-        return out, status
+        return self.toposort(out), status
+
+    def toposort(self, out):
+        """order the emitted definitions so that every `f_g` is defined before it is used, whatever the order of the item list: a refactoring
+        may make one translated function call another that comes later in kernel_items.py.  Each definition keeps the raw items (instances)
+        that follow it.  Stable: without such a forward reference the order is unchanged; members of a cycle keep their original order."""
+        if not self.suffix:
+            return out
+        groups = []          # [name or None, text]
+        k = 0
+        for it in self.items:
+            txt = out[k]
+            k += 1
+            if it['kind'] == 'raw' and groups:
+                groups[-1][1] += "\n" + txt
+            else:
+                groups.append([it.get('lean') if it['kind'] != 'raw' else None, txt])
+        names = [g[0] for g in groups if g[0]]
+        by_method = {}
+        for n in names:
+            by_method.setdefault(n.split('.')[-1], []).append(n)
+        deps = {}
+        for name, txt in groups:
+            if not name:
+                continue
+            body = txt.split(':=', 1)[1] if ':=' in txt else txt
+            d = set()
+            for n in names:
+                if n != name and re.search(r'(?<![\w.])' + re.escape(n + self.suffix) + r'(?![\w])', body):
+                    d.add(n)
+            for m in re.findall(r'\.([A-Za-z_][A-Za-z0-9_]*?)' + re.escape(self.suffix) + r'(?![\w])', body):
+                for n in by_method.get(m, []):
+                    if n != name:
+                        d.add(n)
+            deps[name] = d
+        order, placed, pending = [], set(), list(groups)
+        while pending:
+            progressed = False
+            rest = []
+            for g in pending:
+                if g[0] is None or deps[g[0]] <= placed | {x[0] for x in rest if False}:
+                    if g[0] is None or all(dn in placed for dn in deps[g[0]]):
+                        order.append(g[1])
+                        if g[0]:
+                            placed.add(g[0])
+                        progressed = True
+                        continue
+                rest.append(g)
+            if not progressed:
+                # a cycle (or an over-approximated method dependency): emit the first pending definition as it is
+                g = rest.pop(0)
+                order.append(g[1])
+                if g[0]:
+                    placed.add(g[0])
+            pending = rest
+        return order
 
 
 def main():
@@ -837,6 +893,7 @@ def main():
         from kernel_items import ITEMS
     tr = Translator(a.srcdir, ITEMS, a.suffix)
     tr.raw_decimals = (a.tier == '2')
+    tr.raw_mode = 'pinned' if a.tier == '2' else 'skip'
     out, status = tr.run()
     if a.tier == '2':
         hdr = ("import Kurbo.Shapes\nimport Kurbo.Flatten\nimport Kurbo.Arclen\nimport Kurbo.Quads\n"
